@@ -307,4 +307,11 @@ theorem sortM_permEq : ∀ (ms ns : List (Bytes × JV)), NamesOKM ms → PermEqM
     rw [h.1, sortTree_permEq v w n.1 h.2.1, sortM_permEq ms ns n.2 h.2.2]
 end
 
+/-- Two trees are *canonically equivalent* when, after re-spelling every literal, they agree up to the order of the
+members of their objects (at every depth).  Whitespace never reaches the tree (`tokenize` drops it); `respell` only
+looks at the text of a string literal and at the float value of a number literal (`respell_congr_*` below); `PermEq`
+allows any permutation of the members of any object. -/
+def CanonEquiv (fp : FloatCodec) (t u : JV) : Prop := PermEq (respell fp t) (respell fp u)
+
+
 end JsonV.Lemmas.CanonForm
